@@ -28,16 +28,20 @@ theorem callCb_tables (U : Universe) (s : St) (o : Obj) (m : String) (e : Entry)
   simp only
   split <;> exact ⟨rfl, rfl, rfl, rfl, rfl, rfl, rfl⟩
 
+theorem ctrlRecord_tables (U : Universe) (s : St) (ev : String) (o : Obj) (ent : Option Ent) :
+    SameTables s (ctrlRecord U s ev o ent) := by
+  unfold ctrlRecord
+  split
+  · split <;> exact ⟨rfl, rfl, rfl, rfl, rfl, rfl, rfl⟩
+  · exact .refl s
+
 theorem lifecycle_tables (U : Universe) (s : St) (ev : String) (o : Obj) (m : Mapping)
     (ent : Option Ent) : SameTables s (lifecycle U s ev o m ent).1 := by
   unfold lifecycle
   split
   · exact .refl s
   · split
-    · refine SameTables.trans ?_ (callCb_tables U _ o _ _)
-      split
-      · split <;> exact ⟨rfl, rfl, rfl, rfl, rfl, rfl, rfl⟩
-      · exact .refl s
+    · exact SameTables.trans (ctrlRecord_tables U s ev o ent) (callCb_tables U _ o _ _)
     · split
       · exact ⟨rfl, rfl, rfl, rfl, rfl, rfl, rfl⟩
       · exact .refl s
